@@ -269,7 +269,7 @@ def direct_oracle(spec, c):
             key += ":" + ("notin" if notin else "present" if moles > 0 else "absent")
             st["phase_states"][key] = st["phase_states"].get(key, 0) + 1
             msg = None if notin else valid_phase(moles, d, initial, p.get("opt"))
-            if moles < 0 and moles >= -4 * math.ulp(max(initial, prev.get(nm, 0.0), 1e-300)) and "alt" not in p:
+            if moles < 0 and moles >= -64 * math.ulp(max(initial, prev.get(nm, 0.0), 1e-300)) and "alt" not in p:
                 # reset(): moles - delta/factor leaves a residue of a few ulp of the amount that was dissolved completely;
                 # equal(moles, delta, ineq_tol = 1e-15) is an absolute test and does not snap it to 0 for amounts >= ~5 mol
                 neg.append(f"block {b['k']} (sim {sim} step {b['step']}): {nm} ends with {moles!r} mol (negative residue of the "
